@@ -15,7 +15,8 @@ for f in sorted(glob.glob(os.path.join(V, 'seeded', '*', 'meta.json'))):
     missed = [p for p, c in checks.items() if c['exit'] == 0]
     err = [p for p, c in checks.items() if c['exit'] == 2]
     first = 'missed, caught after strengthening' \
-        if (m.get('notes') or '').startswith('First run: MISSED') else 'caught'
+        if (m.get('notes') or '').startswith('First run') and \
+        'missed' in (m.get('notes') or '')[:60].lower() else 'caught'
     rows.append('| %s | %s | %s | %s | %s | %s | %s |' % (
         name, m.get('property'), (m.get('breaks') or '')[:160].replace('|', '/'),
         'yes' if ok else 'NO: %r' % v, first,
